@@ -5,6 +5,8 @@ import PcfgVerif.Properties.ProbsCore
 import PcfgVerif.Lemmas.SoftFloatLemmas
 import PcfgVerif.Lemmas.RuleDirLemmas
 import PcfgVerif.Generated.RuleDir
+import PcfgVerif.Lemmas.OmenFilesC
+import PcfgVerif.Properties.OmenTrainCore
 /-!
 # C07 — a saved ruleset means the same thing to every tool that loads it
 
@@ -218,5 +220,37 @@ theorem C07_trained_folder_loads {γ β : Type} (U : Detect.UEnv) (cfg : Detect.
   unfold Trainer.train Trainer.pass2
   rw [Trainer.pass2_field U cfg _ field items hf, h0, Trainer.foldl_update_flatten]
   exact Detect.update_keys_nodup [] _ (by simp)
+
+/-! ## The OMEN files (`Omen/IP.level`, `CP.level`, `LN.level`)
+
+`Model/OmenFiles.lean`: the records the trainer writes (`ipLines`, `cpLines`, `lnLines`: one `(level, n-gram)` per line in
+the iteration order of its dicts) and the guesser's `_load_ngrams` / `_load_length` on them (`loadIp`, `loadCp`, `loadLn`,
+`loadTables`; `none` = the loader raises).  `toTables` is the closed form the C10 / C11 / C18 theorems use. -/
+
+/-- **the OMEN files of a trained ruleset load without an error, and the guesser's tables are `toTables`** as far as any
+look-up can tell: the same `ip` table, the same `ln` table (lengths below the n-gram size dropped, the others stored as
+`length − (ngram − 1)`), the same `max_level`, and the same list of letters for every `cp[prefix][level]` -/
+theorem C07_omen_files_load (t : Omen.TTables) (hwf : t.WF) :
+    ∃ tb, t.loadTables = some tb ∧ tb.ipTbl = t.toTables.ipTbl ∧ tb.lnTbl = t.toTables.lnTbl ∧
+      tb.m.maxLevel = t.toTables.m.maxLevel ∧ ∀ ip l, tb.m.cpChars ip l = t.toTables.m.cpChars ip l :=
+  Omen.loadTables_spec t hwf.good
+
+/-- the generator's `_find_cp` reads the `cp` dict only through those look-ups, so it cannot tell the loaded dict from
+`toTables` (dict iteration order, the order in which the levels of a prefix were first seen, are invisible to it) -/
+theorem C07_find_cp_reads_lookups (m1 m2 : Omen.Model) (hM : m1.maxLevel = m2.maxLevel)
+    (h : ∀ ip l, m1.cpChars ip l = m2.cpChars ip l) (ip : Omen.Str) (top bottom : Nat) :
+    m1.findCp ip top bottom = m2.findCp ip top bottom :=
+  Omen.findCp_congr m1 m2 hM h ip top bottom
+
+/-- a level outside `0..max_level` in any of the three files makes the loader raise (it never stores it) -/
+theorem C07_omen_level_out_of_range (maxLevel : Nat) (l : Nat) (k : Omen.Str) (hl : maxLevel < l) :
+    Omen.loadIp maxLevel [(l, k)] = none ∧ Omen.loadCp maxLevel [(l, k)] = none ∧ Omen.loadLn maxLevel 2 [l] = none := by
+  have : ¬ l ≤ maxLevel := by omega
+  simp [Omen.loadIp, Omen.loadIpGo, Omen.loadCp, Omen.loadCpGo, Omen.loadLn, Omen.loadLnGo, this]
+
+/-- non-vacuity: the bigram tables of `OmenTrainCore` are well-formed and load -/
+example : ∃ tb, Omen.exTT.loadTables = some tb ∧ tb.ipTbl = Omen.exTT.toTables.ipTbl :=
+  let ⟨tb, h1, h2, _⟩ := C07_omen_files_load Omen.exTT Omen.exTT_wf
+  ⟨tb, h1, h2⟩
 
 end Pcfg.C07
